@@ -24,6 +24,7 @@ func init() {
 			"H2 also: text derived from a substitution result (through Split/Join/Trim, elements, local cells) is never searched with a non-constant or placeholder needle. " +
 			"H1 also: the escape set equals the POSIX set (an extra escaped byte keeps its backslash inside double quotes). " +
 			"H4 the jobscript file and the submit command's stdin receive the jobScript result itself. " +
+			"H5 every return of shellSafeQuote is built by appendShellSafeQuote, or is the argument itself under a MatchString of a constant pattern ^[class]+$ whose class (computed with regexp/syntax) contains only characters inert in sh. " +
 			"NOT decided: invalid UTF-8 bytes (written as \\ooo, a documented extension), JOB_NAME/RESOURCES, each cluster's directive parser.",
 		Assumptions: append([]string{"POSIX XCU 2.2.3: inside double quotes exactly $, `, \" and \\ (and newline after \\) keep a special meaning"}, commonAssumptions...),
 	}
@@ -39,6 +40,7 @@ func runC18(c *an.Ctx) {
 		return
 	}
 	ruleH4(c)
+	ruleH5(c)
 	// ---------------- H1 ----------------
 	escaped := map[rune]bool{}
 	type arm struct {
